@@ -598,6 +598,43 @@ pub fn run_expiry(ctx: &mut Ctx, mode: Mode) {
             },
         );
     }
+    if mode == Mode::C07 {
+        // Long searches: middlegame positions with a game history, searched for millions of clock
+        // consultations (iteration 7-9, a repetition table grown to hundreds of thousands of entries
+        // during the search). Bookkeeping that only starts at some size or depth (table compaction,
+        // rehashing, a counter wrapping) shows here; the record must still come back as given.
+        let horizon = t.pick(3_000_000u64, 12_000_000u64);
+        let saved = ctx.workers;
+        run_prop(
+            ctx,
+            "record_handed_back_after_long_searches",
+            || (gamelike_walk_strategy(40), proptest::collection::vec(1u32..2_000_000, 2..=2)).prop_map(|(walk, deep)| ExpiryRecipe { game: RepRecipe { walk, cycles: 0, c1: 0, c2: 0, tail_cut: 0 }, deep }),
+            t.pick(16, 96),
+            move |r, st| {
+                let Some((start, moves)) = rep_moves(&r.game) else { return Ok(()) };
+                let Ok(case) = make_case(&start, &moves) else { return Ok(()) };
+                if case.root.legal_moves().is_empty() {
+                    return Ok(());
+                }
+                st.sample(|| case_json(&start, &moves));
+                let mut deep: Vec<u64> = r.deep.iter().map(|&d| d as u64).collect();
+                deep.push(horizon);
+                if !moves.is_empty() {
+                    st.label("long_search_with_game_history");
+                }
+                expiry_case(&case, 20, &deep, mode, st)
+            },
+            move |r| {
+                let mut v = rep_json(&r.game);
+                v["kmax"] = json!(20);
+                let mut deep: Vec<u64> = r.deep.iter().map(|&d| d as u64).collect();
+                deep.push(horizon);
+                v["deep"] = json!(deep);
+                v
+            },
+        );
+        ctx.workers = saved;
+    }
 }
 
 pub fn replay_expiry(case: &Value, mode: Mode) -> CaseResult {
